@@ -25,12 +25,22 @@ Note: the test is generated automatically by #[nutype] macro.
 "
     );
 
-    Some(quote!(
-        #[test]
-        fn should_have_consistent_lower_and_upper_boundaries() {
-            assert!(#upper >= #lower, #msg);
-        }
-    ))
+    if validators.has_exclusive_bound() {
+        // With an exclusive bound, equal boundaries leave no valid value.
+        Some(quote!(
+            #[test]
+            fn should_have_consistent_lower_and_upper_boundaries() {
+                assert!(#upper > #lower, #msg);
+            }
+        ))
+    } else {
+        Some(quote!(
+            #[test]
+            fn should_have_consistent_lower_and_upper_boundaries() {
+                assert!(#upper >= #lower, #msg);
+            }
+        ))
+    }
 }
 
 pub fn gen_test_should_have_valid_default_value(
